@@ -237,9 +237,10 @@ def run_case(case, drv):
         except Exception as e:  # noqa
             out, impl = None, core.err_kind(e)
         rep = drv.ask(req)
-        if rep.split()[0] != impl:
+        if core.err_class(rep.split()[0]) != core.err_class(impl):
             res.disagree("sample() status", impl, rep)
-        if good and (impl != "ok" or out is not obj):
+        same = out is obj or (impl == "ok" and type(out) is type(obj) and np.shape(out) == np.shape(obj) and bool(np.all(np.asarray(out) == np.asarray(obj))))
+        if good and (impl != "ok" or not same):     # ("returned unchanged": the same values; an equal copy is as good)
             res.fail("sample:plain-changed", f"sample({obj!r}, {case['size']}) did not return the object unchanged ({impl})")
         if not good and impl == "ok":
             res.fail("sample:plain-accepted", f"sample({obj!r}, {case['size']}) accepted a wrong length")
@@ -286,11 +287,11 @@ def run_case(case, drv):
         with np.errstate(all="ignore"):
             want = eval_np(e, dists, m)
             want_again = eval_np(e, dists, m)
-        if np.shape(got_again) != (m,) or not np.array_equal(np.asarray(got_again), want_again, equal_nan=True):
+        if np.shape(got_again) != (m,) or not np.allclose(np.asarray(got_again, dtype=float), want_again, rtol=1e-12, atol=0, equal_nan=True):
             res.fail("rvs:value-real-second-draw", f"{tokens(e)} seed {case['seed']}: second draw from the same object {got_again} != {want_again}")
         if np.shape(got) != (m,):
             res.fail("rvs:shape", f"shape {np.shape(got)} != ({m},)")
-        elif not np.array_equal(np.asarray(got), want, equal_nan=True):
+        elif not np.allclose(np.asarray(got, dtype=float), want, rtol=1e-12, atol=0, equal_nan=True):      # (re-association of a sum is harmless)
             res.fail("rvs:value-real", f"{tokens(e)} seed {case['seed']}: {got} != {want}")
         return res
 
@@ -356,7 +357,7 @@ def run_case(case, drv):
             res.fail("rvs:raises", f"sampling {tokens(e)} (draw #{r + 1}) raised {ex!r}")
         rep = drv.ask(request(round_draws(r)))
         head, groups = core.split_reply(rep)
-        if head != impl[0]:
+        if core.err_class(head) != core.err_class(impl[0]):
             res.disagree("rvs status", impl, head)
             return res
         marr = [Fraction(t) for t in groups[0][1:]]
@@ -370,8 +371,30 @@ def run_case(case, drv):
         if impl[3] != (m,):
             res.fail("rvs:shape", f"shape {impl[3]} != ({m},)")
         if impl[1] != wants[r]:
-            res.fail("rvs:value", f"{tokens(e)} draw #{r + 1} from the same expression object: got {[fs(x) for x in impl[1]]}, "
-                                  f"expression on the leaf draws gives {[fs(x) for x in wants[r]]}")
+            # the property fixes no order in which the occurrences of one leaf are drawn: any assignment of that leaf's draws of this
+            # round to its occurrences is accepted (the model draws left to right; a different order shows up as a disagreement only)
+            import itertools as _it
+            rd = round_draws(r)
+            ks = [o.get(i, 0) for i in range(case["nleaves"])]
+            nperm = 1
+            for k_ in ks:
+                for t_ in range(2, k_ + 1):
+                    nperm *= t_
+            matched = False
+            if nperm <= 720:
+                for perms in _it.product(*[_it.permutations(range(k_)) for k_ in ks]):
+                    dp = [[rd[i][j] for j in perms[i]] + rd[i][ks[i]:] for i in range(case["nleaves"])]
+                    try:
+                        if eval_exact(e, dp, {}, m) == impl[1]:
+                            matched = True
+                            break
+                    except (ZeroDiv, OverflowError):
+                        continue
+            if matched:
+                res.features.append("draw-order:not-left-to-right")
+            else:
+                res.fail("rvs:value", f"{tokens(e)} draw #{r + 1} from the same expression object: got {[fs(x) for x in impl[1]]}, "
+                                      f"expression on the leaf draws gives {[fs(x) for x in wants[r]]}")
         if impl[2] != [o.get(i, 0) for i in range(case["nleaves"])]:
             res.fail("rvs:draw-count", f"leaf draw counts {impl[2]} != occurrences {[o.get(i, 0) for i in range(case['nleaves'])]}")
     for r, (arr, vals) in enumerate(kept):
